@@ -18,7 +18,7 @@ RULE = ("generated strongly connected street graphs with strongly varying speeds
         "an independent heapq Dijkstra written for the harness (rel. tol 1e-9). non-trivial = junction pair whose fastest path is not a "
         "fewest-links path; distinct = sha1(case)")
 ASSUMPTIONS = ["no parallel edges in generated graphs (the link table keeps one link per ordered node pair); on Denver the cheaper of two parallel edges is the reference",
-               "edge travel times are computed from the input data: the travel_time attribute, else length / speed_kmph (default speed 40 km/h when an edge has no speed)",
+               "edge travel times are computed from the input data: the travel_time attribute, else length / speed_kmph (the configured default speed - 40, 25 or 70 km/h - when an edge has no speed)",
                "PYTHONHASHSEED pinned to 0"]
 FLOORS = {"quick": {"pairs": 2000, "flag:fastest_is_not_fewest_links": 150}, "thorough": {"pairs": 100000}}
 
@@ -35,7 +35,9 @@ def st_case(draw) -> Dict[str, Any]:
     # links into one cell (9-11: whole blocks share a cell, and cell-centre distances differ visibly from coordinate distances)
     # a network in use may be written out at any time (OSMRoadNetwork.to_file, the documented way to cache a downloaded graph)
     save_at = draw(st.sampled_from([None, None, None, 0, 1, 3]))
-    return {"net": net, "graph": g, "pairs": pairs, "fans": fans, "save_at": save_at, "res": draw(st.sampled_from([15, 15, 15, 13, 12, 11, 10, 9])) if net != "hav" else 15}
+    # the speed of links that carry none is configuration (default_speed_kmph of the network section, default 40)
+    dspeed = draw(st.sampled_from([40.0, 40.0, 40.0, 25.0, 70.0]))
+    return {"net": net, "graph": g, "pairs": pairs, "fans": fans, "save_at": save_at, "default_speed_kmph": dspeed, "res": draw(st.sampled_from([15, 15, 15, 13, 12, 11, 10, 9])) if net != "hav" else 15}
 
 
 def check_case(case: Dict[str, Any]) -> Tuple[List[Violation], Set[str], Dict[str, int]]:
@@ -44,9 +46,10 @@ def check_case(case: Dict[str, Any]) -> Tuple[List[Violation], Set[str], Dict[st
     out: List[Violation] = []
     flags: Set[str] = set()
     stats = collections.Counter()
-    rn = graphs.denver_network(res=case.get("res", 15)) if case["net"] == "denver" else graphs.build_network(case["graph"], res=case.get("res", 15))
+    dspeed = float(case.get("default_speed_kmph", 40.0))
+    rn = graphs.denver_network(dspeed, res=case.get("res", 15)) if case["net"] == "denver" else graphs.build_network(case["graph"], dspeed, res=case.get("res", 15))
     # link times come from the input data (travel_time attribute, else length / speed), not from what the network stored
-    edges = graphs.edge_table_from_input("denver" if case["net"] == "denver" else case["graph"])
+    edges = graphs.edge_table_from_input("denver" if case["net"] == "denver" else case["graph"], dspeed)
     links = graphs.sorted_links(rn)
     queries = [(links[ai % len(links)], links[bi % len(links)], "end") for ai, bi in case["pairs"]]
     nodes = sorted({int(l.link_id.split("-")[0]) for l in links})
